@@ -127,6 +127,17 @@ func VerifE03WeightedCheck() {
 	u.Restrict(vt.ParamInt("maxcands", 12), vt.ParamInt("seed", 0))
 	st := vtsem.NewSymbolicStore(u)
 	reqs := verifRequests(u, vt.Param("subjects", "all"))
+	if only := vt.Param("rel", ""); only != "" {
+		// a job may restrict the requests to one relation (keeps findings recorded on other relations of the
+		// model from using up the run's violation budget)
+		var kept []verifReq
+		for _, r := range reqs {
+			if r.rel == only {
+				kept = append(kept, r)
+			}
+		}
+		reqs = kept
+	}
 	ri := vt.ParamInt("req", -1)
 	if ri < 0 {
 		ri = vt.Choose("req", len(reqs))
